@@ -56,9 +56,16 @@ theorem C14_publish (s : S) (tag : String) (retain : Bool) (topic msg : Bytes) (
       split at h <;> cases h
     | live =>
       simp only [hl] at h ⊢
-      by_cases hh : (s.held.isSome || !s.closers.isEmpty) = true
-      · simp only [hh, if_true] at h; cases h
-      · simp only [hh, Bool.false_eq_true, if_false] at h ⊢
+      · have hc : (!s.closers.isEmpty) = false := by
+          cases hc : (!s.closers.isEmpty) with
+          | false => rfl
+          | true => simp only [hc, if_true] at h; cases h
+        simp only [hc, Bool.false_eq_true, if_false] at h ⊢
+        have hh : s.held.isSome = false := by
+          cases hh : s.held.isSome with
+          | false => rfl
+          | true => simp only [hh, if_true] at h; cases h
+        simp only [hh, Bool.false_eq_true, if_false] at h ⊢
         by_cases hg : s.gateAhead = true
         · simp only [hg, if_true] at h; cases h
         · simp only [hg, Bool.false_eq_true, if_false] at h ⊢
